@@ -160,6 +160,7 @@ pub fn standard(rng: &mut Rng, tier: &str) -> Vec<Item> {
     v.extend(generated_stills(rng, if thorough { 160 } else { 40 }, 24));
     v.extend(generated_animations(rng, if thorough { 80 } else { 20 }, 20));
     v.extend(generated_vp8l(rng, if thorough { 120 } else { 30 }));
+    v.extend(generated_filtered_alpha_stills(rng, if thorough { 80 } else { 24 }, 20));
     v
 }
 
@@ -174,6 +175,49 @@ pub fn generated_vp8l(rng: &mut Rng, n: usize) -> Vec<Item> {
         if g.payload.len() <= 30_000 && (g.width as u64) * (g.height as u64) <= 20_000 {
             v.push(Item { name: format!("gen_vp8l_{i}_{}x{}", g.width, g.height), bytes: riff(&[(fourcc("VP8L"), g.payload)]), kind: "lossless" });
         }
+    }
+    v
+}
+
+/// forward alpha filtering (inverse of the container spec's un-filtering): residuals for filter 0..3
+pub fn alpha_filter_forward(filter: u8, w: usize, h: usize, alpha: &[u8]) -> Vec<u8> {
+    let mut out = vec![0u8; w * h];
+    for y in 0..h {
+        for x in 0..w {
+            let at = |xx: usize, yy: usize| alpha[yy * w + xx] as i32;
+            let p: i32 = match (filter, x, y) {
+                (0, _, _) => 0,
+                (_, 0, 0) => 0,
+                (1, 0, _) => at(0, y - 1),
+                (1, _, _) => at(x - 1, y),
+                (2, _, 0) => at(x - 1, 0),
+                (2, _, _) => at(x, y - 1),
+                (_, 0, _) => at(0, y - 1),
+                (_, _, 0) => at(x - 1, 0),
+                _ => (at(x - 1, y) + at(x, y - 1) - at(x - 1, y - 1)).clamp(0, 255),
+            };
+            out[y * w + x] = alpha[y * w + x].wrapping_sub(p as u8);
+        }
+    }
+    out
+}
+
+/// lossy stills with a hand-made raw ALPH chunk using each prediction filter (libwebp's encoder rarely picks them)
+pub fn generated_filtered_alpha_stills(rng: &mut Rng, n: usize, max_side: u32) -> Vec<Item> {
+    let mut v = vec![];
+    for i in 0..n {
+        let w = rng.range(1, max_side as u64) as u32;
+        let h = rng.range(1, max_side as u64) as u32;
+        let (st, am) = (rng.below(5), 1 + rng.below(3));
+        let img = synth_rgba(rng, w, h, st, am);
+        let f = lw::encode_lossy_rgb(&rgb_of(&img), w, h, 70.0);
+        let Some((_, vp8)) = image_chunks(&f).into_iter().find(|c| &c.0 == b"VP8 ") else { continue };
+        let alpha: Vec<u8> = img.chunks_exact(4).map(|p| p[3]).collect();
+        let filter = (i % 4) as u8;
+        let mut alph = vec![filter << 2];
+        alph.extend(alpha_filter_forward(filter, w as usize, h as usize, &alpha));
+        let chunks = vec![vp8x(FLAG_ALPHA, w, h), (fourcc("ALPH"), alph), (fourcc("VP8 "), vp8)];
+        v.push(Item { name: format!("gen_lossy_alphfilter{filter}_{i}_{w}x{h}"), bytes: riff(&chunks), kind: "lossy_alpha" });
     }
     v
 }
